@@ -161,6 +161,7 @@ type freeSummary struct {
 	casCalls, casMissed int64
 	setup               string
 	dur                 time.Duration
+	maxGap, canaryMax   time.Duration // longest time the lock was free while a caller was blocked in Lock(); sleep canary
 }
 
 func runFreeOnce(c *Case) *freeSummary {
@@ -227,6 +228,7 @@ func runFreeOnce(c *Case) *freeSummary {
 	defer runtime.GOMAXPROCS(old)
 
 	var inCS, maxIn, acq, rel, tryFail, ctxErr, panics, otherErr int64
+	var lastFree, maxGap, canaryMax int64
 	var mu sync.Mutex
 	start := make(chan struct{})
 	var wg sync.WaitGroup
@@ -269,10 +271,26 @@ func runFreeOnce(c *Case) *freeSummary {
 					}()
 					switch kind {
 					case 1:
+						t0w := time.Now().UnixNano()
 						L.Lock()
 						got = true
+						// hand-off: how long had the lock been free (its last Unlock returned, nobody inside) while this
+						// caller was already blocked in Lock()?
+						if lf := atomic.LoadInt64(&lastFree); lf > t0w && !race {
+							if g := time.Now().UnixNano() - lf; g > atomic.LoadInt64(&maxGap) {
+								atomic.StoreInt64(&maxGap, g)
+							}
+						}
 					case 2:
-						got = L.TryLock(context.Background())
+						tctx := context.Background()
+						if !race && r.Chance(1, 6) {
+							// an attempt whose context has ended already: it does not acquire (the storage refuses the call)
+							// and leaves nothing behind - the Locker works as before
+							c2, cancel2 := context.WithCancel(tctx)
+							cancel2()
+							tctx = c2
+						}
+						got = L.TryLock(tctx)
 						if !got {
 							atomic.AddInt64(&tryFail, 1)
 						}
@@ -373,10 +391,31 @@ func runFreeOnce(c *Case) *freeSummary {
 					}()
 					L.Unlock()
 					atomic.AddInt64(&rel, 1)
+					if atomic.LoadInt64(&inCS) == 0 {
+						atomic.StoreInt64(&lastFree, time.Now().UnixNano())
+					}
 				}()
 			}
 		}()
 	}
+	// sleep canary: did the machine let goroutines run?
+	stopCanary := make(chan struct{})
+	go func() {
+		const d = time.Millisecond
+		for {
+			select {
+			case <-stopCanary:
+				return
+			default:
+			}
+			t := time.Now()
+			time.Sleep(d)
+			if late := int64(time.Since(t) - d); late > atomic.LoadInt64(&canaryMax) {
+				atomic.StoreInt64(&canaryMax, late)
+			}
+		}
+	}()
+	defer close(stopCanary)
 	close(start)
 	done := make(chan struct{})
 	go func() { wg.Wait(); close(done) }()
@@ -390,6 +429,7 @@ func runFreeOnce(c *Case) *freeSummary {
 		sum.casCalls, sum.casMissed = atomic.LoadInt64(&sig.calls), atomic.LoadInt64(&sig.missed)
 	}
 	sum.acq, sum.rel, sum.maxIn = atomic.LoadInt64(&acq), atomic.LoadInt64(&rel), atomic.LoadInt64(&maxIn)
+	sum.maxGap, sum.canaryMax = time.Duration(atomic.LoadInt64(&maxGap)), time.Duration(atomic.LoadInt64(&canaryMax))
 	sum.tryFail, sum.ctxErr = atomic.LoadInt64(&tryFail), atomic.LoadInt64(&ctxErr)
 	sum.panics, sum.otherErr = atomic.LoadInt64(&panics), atomic.LoadInt64(&otherErr)
 	if !sum.hung {
@@ -451,11 +491,18 @@ func RunFree(c *Case) *Result {
 	res := &Result{Counts: map[string]int{}, Complete: true}
 	var sum *freeSummary
 	hangs := 0
+	lateHandOffs := 0
+	var lateSum *freeSummary
+	const handOffLimit = 1500 * time.Millisecond // >= 1000x the hand-off time on a quiet machine
 	for attempt := 0; attempt < 3; attempt++ {
 		sum = runFreeOnce(c)
 		if sum.setup != "" {
 			res.Discard = sum.setup
 			return res
+		}
+		if !sum.hung && sum.maxGap > handOffLimit && sum.canaryMax < 200*time.Millisecond {
+			lateHandOffs++
+			lateSum = sum
 		}
 		if sum.hung {
 			hangs++
@@ -467,6 +514,16 @@ func RunFree(c *Case) *Result {
 			continue
 		}
 		break
+	}
+	if lateHandOffs >= 2 && c.Free.LeaseMs == 0 {
+		// in two runs whose sleep canary stayed below 200 ms the lock stood free for more than 1.5 s while a caller was
+		// blocked in Lock(): the hand-off came from the lease running out (10 s), not from the Unlock
+		res.Direct = append(res.Direct, Direct{What: "hand-off: a blocked caller did not get the lock its holder released", Detail: fmt.Sprintf(
+			"free-running stream: the lock was free (last Unlock returned, nobody inside) for %v while a caller was blocked in Lock() (sleep canary at most %v late); seen in %d of the attempts",
+			lateSum.maxGap.Round(time.Millisecond), lateSum.canaryMax.Round(time.Millisecond), lateHandOffs)})
+		if sum == nil {
+			sum = lateSum
+		}
 	}
 	if sum == nil {
 		res.Discard = "free-running case took longer than 4 s three times (machine stalled); the lease premise cannot be vouched for"
